@@ -803,6 +803,10 @@ def mk_validate(ctx):
         inner = v[3][0][1]
         if not (inner[0] == 'agg' and inner[2] == 'MissingChild' and as_item(inner[3][0][1]) is not None):
             errs.append('the error does not name the missing child')
+        from .loops import loop_of_block
+        lp_ = loop_of_block(it, fr[0])
+        if lp_ is not None and not must_pass_unless_noop(facts, body, it, [lp_.head], {'children': (2, ('children',))}):
+            errs.append('a path through validate_op answers without testing the children of the op (an op with a missing child is accepted there)')
     ctx.check(not errs, 'validate_op', body, 'Err(MissingChild(c)) exactly when c is not in dag', errs[0] if errs else '',
               details={'child in dag -> (Err may, must)': {str(k): v for k, v in res.items()}})
 
